@@ -2,9 +2,9 @@
     (32 in the running system); the connected list is ANY list of such addresses in ANY
     order (the order in which the peer index is walked is irrelevant), not containing the
     node's own address.  [dist t p] is the XOR distance as a big-endian integer (C20). *)
-From Coq Require Import List NArith ZArith Bool Sorted.
+From Coq Require Import List NArith ZArith Bool Sorted Permutation.
 Import ListNotations.
-Require Import Aurora.C20.Model Aurora.C23.Model Aurora.C23.Proofs.
+Require Import Aurora.C20.Model Aurora.C23.Model Aurora.C23.Proofs Aurora.C23.Perm.
 Local Open Scope N_scope.
 
 (** the standing assumptions on one query *)
@@ -51,6 +51,20 @@ Theorem C23_n_closest : forall L k target limit fr skip, well_formed L k target 
   (forall q x, In q (k_conn k) -> eligible k fr skip q = true -> ~ In q out -> In x out -> dist target x <= dist target q).
 Proof. intros L k target limit fr skip (H0 & H1 & H2 & H3 & H4). exact (loop_spec k target fr L H0 H1 H2 H3 H4 (Z.to_nat limit) skip). Qed.
 Print Assumptions C23_n_closest.
+
+(** "the connected peer nearest to the target": the answers depend on the SET of connected peers
+    only, never on the order in which the peer index happens to be walked (bins, insertion
+    history).  [with_conn k l'] is [k] with its connected list replaced by [l']. *)
+Theorem C23_order_independent : forall L k target inc fr skip limit l', well_formed L k target ->
+  Permutation (k_conn k) l' ->
+  closest_peer (with_conn k l') target inc fr skip = closest_peer k target inc fr skip /\
+  closest_peers (with_conn k l') target limit fr skip = closest_peers k target limit fr skip.
+Proof.
+  intros L k target inc fr skip limit l' (H0 & H1 & H2 & H3 & H4) Hp. split.
+  - exact (closest_peer_perm k target fr L l' H0 H1 H2 H3 H4 Hp inc skip).
+  - exact (closest_peers_perm k target fr L l' H0 H1 H2 H3 H4 Hp limit skip).
+Qed.
+Print Assumptions C23_order_independent.
 
 (** non-vacuity: a 4-peer node; every branch of the statement occurs *)
 Example C23_hyps_satisfiable :
